@@ -14,6 +14,7 @@ import FB.Rollback
 import FB.MakeDirs
 import FB.MakeRoom
 import FB.MakeRoomF
+import FB.MakeDirsF
 import FB.Conc
 import FB.ConcDirs
 import FB.ConcDirsF
@@ -497,6 +498,14 @@ def runMD (j : Lean.Json) : Except String Lean.Json := do
     ("saved", .arr (st.bk.saved.map fun (p, e) => match e with
         | .file c m => Lean.Json.arr #[.str (showPath p), .str c, .num (.fromNat m)]
         | .dir => Lean.Json.arr #[.str (showPath p), .str "dir"]).toArray)]
+  match (j.getObjVal? "failAny").toOption with
+  | some fa =>
+    -- C14: the k-th mutating call - a mkdir or the rename that moves an old output aside - fails (`FB.MakeDirsF`)
+    let k ← fa.getNat?
+    match FB.MakeDirsF.makeDirs fs {} dirs oldCreated (some k) with
+    | .ok (st, n) => return (showSt st "ok").setObjVal! "calls" (.num (.fromNat n))
+    | .error (st, n) => return (showSt st "OSError").setObjVal! "calls" (.num (.fromNat n))
+  | none =>
   match FB.MakeDirs.makeDirs fs {} dirs oldCreated failAt with
   | .ok st => return showSt st "ok"
   | .error st => return showSt st "OSError"
